@@ -43,6 +43,7 @@ enum { GQ_METHOD, GQ_TARGET, GQ_VERSION, GQ_HOST, GQ_HDRA, GQ_HDRB, GQ_COOKIE, G
 enum { GS_VERSION, GS_STATUS, GS_REASON, GS_HDRA, GS_HDRB, GS_FRAMING, GS__N };
 extern const int gq_alts[GQ__N];     /* number of alternatives per request slot (alt 0 = default) */
 extern int gs_alts[GS__N];
+extern int gx_nobody_cl;
 
 /* Build message number `ord` from slot choices; appends wire bytes to req / res, fills truth.
  * `last` = this is the last exchange on the connection (close-delimited framing is legal only then;
